@@ -235,6 +235,9 @@ def run(prog, chk):
         "what getAttrWithFallback returns (the font's own info value, or the package-wide default object) is never modified in place: a compile does not change what the next compile of the same font - or of any other font - reads (R08.9, shared with C16)",
         "where the package measures a glyph through a try / except AttributeError fallback for the two UFO libraries, both branches ask for the same quantity (R08.10)",
     ]
+    chk.decided += ["the working copy of a glyph carries every field whole: each copied field is the source field itself (scalars), a container copy of it, or a comprehension that copies every element "
+                    "whole (dict(a), a.copy(), deepcopy(a)) - not a re-assembly from selected keys, which loses what it does not name (anchor identifiers -> contextual anchors) and makes the "
+                    "output depend on inplace (R08.12)"]
     chk.not_decided += ["byte identity itself", "behavioural differences between defcon and ufoLib2", "ordering of dict-typed UFO containers (treated as content)"]
     chk.assumptions += ["glyph-class literals and sets handed to fontTools as sets are order-neutral sinks (coverage / class tables are sorted by glyph id)",
                         "dict iteration order is insertion order (content), only set / frozenset iteration is hash-seed dependent"]
@@ -250,6 +253,7 @@ def run(prog, chk):
     from .c16 import r167
     chk.guard(r167, prog, chk, "R08.9")
     chk.guard(r0810, prog, chk)
+    chk.guard(check_glyph_copy_complete, prog, chk, "R08.12")
 
 
 # ----------------------------------------------------------------------------- R08.1
@@ -854,7 +858,51 @@ def r0810(prog, chk):
     chk.minimum("R08.10", 4)
 
 
+# ----------------------------------------------------------------------------- R08.12 (= R07.10)
+def check_glyph_copy_complete(prog, chk, rule):
+    ix = prog.ix
+    cg = ix.get_func("ufo2ft.util:_copyGlyph")
+    src = cg.params()[0]
+    rets = {T(r.value) for r in A.returns_of(cg.node) if r.value is not None}
+    need(len(rets) == 1, f"cannot interpret {cg.short}")
+    cp = rets.pop()
+
+    def whole(v, attr):
+        """v is the source field, or a complete copy of it"""
+        f_ = f"{src}.{attr}"
+        if T(v) == f_:
+            return True
+        if isinstance(v, ast.Call) and len(v.args) == 1 and not v.keywords and A.callee_name(v) in ("list", "dict", "set", "tuple", "deepcopy", "copy") and T(v.args[0]) == f_:
+            return True
+        if isinstance(v, ast.Call) and isinstance(v.func, ast.Attribute) and v.func.attr == "copy" and T(v.func.value) == f_ and not v.args:
+            return True
+        if isinstance(v, (ast.ListComp, ast.GeneratorExp)) and len(v.generators) == 1 and not v.generators[0].ifs and T(v.generators[0].iter) == f_ and isinstance(v.generators[0].target, ast.Name):
+            x = v.generators[0].target.id
+            e = v.elt
+            if T(e) == x:
+                return True
+            if isinstance(e, ast.Call) and len(e.args) == 1 and not e.keywords and A.callee_name(e) in ("dict", "list", "deepcopy", "copy") and T(e.args[0]) == x:
+                return True
+            if isinstance(e, ast.Call) and isinstance(e.func, ast.Attribute) and e.func.attr == "copy" and T(e.func.value) == x and not e.args:
+                return True
+        return False
+    n = 0
+    for st in A.stmts_of(cg.node):
+        if isinstance(st, ast.Assign) and len(st.targets) == 1 and isinstance(st.targets[0], ast.Attribute) and T(st.targets[0].value) == cp \
+                and any(isinstance(x, ast.Name) and x.id == src for x in ast.walk(st.value)):
+            attr = st.targets[0].attr
+            n += 1
+            ok = whole(st.value, attr)
+            chk.ob(rule, f"{cg.short}|copy.{attr} is the whole source field", ok, where(cg, st), detail=T(st.value, 70),
+                   message=f"{cg.short}: the copy's `{attr}` is re-assembled from parts of the source's (`{T(st.value, 60)}`) instead of copied whole: whatever the expression does not name "
+                           f"(e.g. anchor identifiers, which link contextual anchors to their lib entries) is lost on the working copy, so inplace=False and inplace=True compile differently")
+    need(n >= 4, f"cannot interpret {cg.short}: field copies ({n})")
+    chk.minimum(rule, 4)
+
+
 MUTANTS = [
+    M("anchors of the working copy rebuilt from name / x / y only: identifiers lost (seeded C08m)", "ufo2ft/util.py", "_copyGlyph",
+      "copy.anchors = [dict(a) for a in glyph.anchors]", "copy.anchors = [{'name': a.name, 'x': a.x, 'y': a.y} for a in glyph.anchors]", rule="R08.12"),
     M("ufoLib2 components ranked by control box, defcon components by exact bounds (seeded C08l)", "ufo2ft/filters/propagateAnchors.py", "_bounds",
       "fontTools.pens.boundsPen.BoundsPen(glyphSet=glyph_set)", "fontTools.pens.boundsPen.ControlBoundsPen(glyphSet=glyph_set)", rule="R08.10"),
     M("ufoLib2 glyphs measured by control-point bounds, defcon glyphs by exact bounds (seeded C08h)", "ufo2ft/filters/dottedCircle.py", "DottedCircleFilter.check_and_add_anchors",
